@@ -1,6 +1,7 @@
 package main
 
 import (
+	"bytes"
 	"fmt"
 	"strings"
 
@@ -176,10 +177,10 @@ var c01Core = []string{"{", "}", "[", "]", ",", ":", `"a"`, "0", "-1.5", "true",
 // every bad token and every good value kind, as single probes for the boundary sweeps
 func c01Probes() []string {
 	var p []string
-	for _, t := range c01Tokens[6:] {
+	for _, t := range c01Tokens {
 		p = append(p, t)
 	}
-	p = append(p, "{}", "[]", `{"a":0}`, "[0]", "true\x00", "null\x00x", "-01.5", "0e0", "-0.0", `"\\"`, `"\""`, `"A"`, `"𝄞"`, "1e400", "-1e400", "123456789012345678901234567890")
+	p = append(p, "{}", "[]", `{"a":0}`, "[0]", "true\x00", "null\x00x", "-01.5", "0e0", "-0.0", `"\\"`, `"\""`, `"\u0041"`, `"\ud834\udd1e"`, `"é𝄞"`, "1e400", "-1e400", "123456789012345678901234567890")
 	return p
 }
 
@@ -203,6 +204,7 @@ func forEachC01Input(w *W, emit emitFn) {
 	c01E1(w, emit)
 	c01E3(w, emit)
 	c01E4(w, emit)
+	c01E5(w, emit)
 }
 
 func c01Body(w *W) {
@@ -445,6 +447,63 @@ func c01E4(w *W, emit emitFn) {
 		}
 	}
 	w.Sample(fmt.Sprintf("E4 sample (len %d): %q…%q", len(in), in[:12], in[len(in)-24:]))
+}
+
+// E5: every token sequence <= 2 over the core alphabet at the start, in the middle and at
+// the end of a document just above the 8 KiB threshold (concurrent two-stage path), so each
+// kind of error - and each way of leaving a scope open while still ending in ] or } - is
+// decided there too.
+func c01E5(w *W, emit emitFn) {
+	w.Note("E5: every sequence of <= 2 tokens over the 16-token core (and every single token of the full alphabet) spliced in at the start, middle and end of a dense document of ~8300 bytes, array and object flavour")
+	var seqs [][]byte
+	for _, a := range c01Tokens {
+		seqs = append(seqs, []byte(a))
+	}
+	for _, a := range c01Core {
+		for _, b := range c01Core {
+			seqs = append(seqs, []byte(a+b))
+		}
+	}
+	half := bytes.Repeat([]byte("17,"), 1380)
+	var in []byte
+	for _, q := range seqs {
+		w.res.States++
+		if !w.Mine() || w.Expired() || w.TooManyViolations() {
+			continue
+		}
+		for pos := 0; pos < 3; pos++ {
+			for flavour := 0; flavour < 2; flavour++ {
+				in = in[:0]
+				if flavour == 0 {
+					in = append(in, '[')
+				} else {
+					in = append(in, `{"k":[`...)
+				}
+				if pos == 0 {
+					in = append(in, q...)
+					in = append(in, ',')
+				}
+				in = append(in, half...)
+				if pos == 1 {
+					in = append(in, q...)
+					in = append(in, ',')
+				}
+				in = append(in, half...)
+				if pos == 2 {
+					in = append(in, q...)
+				} else {
+					in = append(in, '0')
+				}
+				if flavour == 0 {
+					in = append(in, ']')
+				} else {
+					in = append(in, `],"z":0}`...)
+				}
+				w.res.Transitions++
+				emit(in, q, "C01-E5-large")
+			}
+		}
+	}
 }
 
 func c01Fresh(w *W) {
